@@ -62,11 +62,34 @@ pub struct RunCmp {
     pub impl_canon: Option<String>,
     pub model: String,
     pub table: bool,
+    pub query: String,
+}
+
+/// functions whose value comes from the platform's libm (Rust's and Lean's bindings need not be
+/// the same implementation and libm does not promise correct rounding): their results are a
+/// parameter of the model, and the comparison allows them a few units in the last place
+const LIBM_FUNCS: &[&str] = &["acos(", "asin(", "atan(", "atan2(", "cbrt(", "cos(", "cosh(", "exp(", "expm1(", "hypot(", "log(", "log10(", "log1p(", "sin(", "sinh(", "tan(", "tanh(", "toDegrees(", "toRadians("];
+
+/// equal up to ≤ 4 ulp on `F<16 hex>` tokens
+fn equal_up_to_ulps(a: &str, b: &str) -> bool {
+    let (ta, tb): (Vec<&str>, Vec<&str>) = (a.split(' ').collect(), b.split(' ').collect());
+    if ta.len() != tb.len() {
+        return false;
+    }
+    ta.iter().zip(tb.iter()).all(|(x, y)| {
+        if x == y {
+            return true;
+        }
+        match (x.strip_prefix('F').and_then(|h| u64::from_str_radix(h, 16).ok()), y.strip_prefix('F').and_then(|h| u64::from_str_radix(h, 16).ok())) {
+            (Some(p), Some(q)) if x.len() == 17 && y.len() == 17 => (p >> 63) == (q >> 63) && p.abs_diff(q) <= 4,
+            _ => false,
+        }
+    })
 }
 
 /// run query on both sides with `-o json`
 pub fn run_both(ctx: &mut Ctx, query: &str, input: &[u8]) -> RunCmp {
-    let imp = imp::run(query, input, "json", 10);
+    let imp = imp::run(query, input, "json", if input.len() > 100_000 { 120 } else { 30 });
     let parsed = imp::parse(query).ok().and_then(|p| p.0);
     let (ast, table) = match &parsed {
         Some(q) => (Some(enc::query(q)), is_table_query(q)),
@@ -84,7 +107,7 @@ pub fn run_both(ctx: &mut Ctx, query: &str, input: &[u8]) -> RunCmp {
     } else {
         None
     };
-    RunCmp { imp, ast, impl_canon, model, table }
+    RunCmp { imp, ast, impl_canon, model, table, query: query.to_string() }
 }
 
 /// F-level comparison outcome
@@ -146,6 +169,9 @@ pub fn compare(c: &RunCmp, order_matters: bool) -> F {
     if c.imp.hung {
         return F::Disagree("implementation hung".into());
     }
+    if c.imp.contaminated {
+        return F::Skip("an earlier run of this worker was still writing to stderr: error lines cannot be attributed".into());
+    }
     if c.model.starts_with("SKIP") {
         return F::Skip(c.model[4..].trim().to_string());
     }
@@ -180,6 +206,9 @@ pub fn compare(c: &RunCmp, order_matters: bool) -> F {
     let (a, b) = if c.table && !order_matters { (rows_as_multiset(&ic), rows_as_multiset(&m)) } else { (ic, m) };
     if a == b {
         F::Agree
+    } else if LIBM_FUNCS.iter().any(|f| c.query.contains(f)) && equal_up_to_ulps(&a, &b) {
+        // a libm value differs by a few ulp between Rust's and Lean's bindings: outside the model
+        F::Skip("libm value differs in the last place (libm is a parameter of the model)".into())
     } else {
         F::Disagree(format!("outputs differ: impl={} model={}", clip(&a), clip(&b)))
     }
